@@ -635,7 +635,39 @@ class Gen:
             args = (bad,) + tuple(args[1:])
         return tuple(args), dict(kwargs)
 
+    def k_slotted_instance(self, with_call):
+        """Instance of a local class with __slots__ and no __getstate__: its reduction needs pickle protocol >= 2,
+        so it tells apart a wrapper that serialises its payload with cloudpickle's own protocol from one that
+        inherits the protocol of the enclosing (possibly legacy, protocol 0/1) pickler."""
+        r = self.r
+        a, b = r.sample(ATTR_POOL, 2)
+        cname = r.choice(CLASS_NAMES)
+        lines = [
+            "def make():",
+            "    K0 = %s" % self.lit(),
+            "    class %s:" % cname,
+            "        __slots__ = (%r, %r)" % (a, b),
+            "        def __init__(self, u, v):",
+            "            self.%s = u" % a,
+            "            self.%s = v" % b,
+            "        def m0(self, z=%s):" % self.lit(),
+            "            return (self.%s, z, K0)" % a,
+            "        def bump(self, d=1):",
+            "            self.%s = (self.%s, d)" % (b, b),
+            "            return self.%s" % b,
+        ]
+        ops = [("attr", a), ("meth", "m0", (), {}), ("meth", "bump", (), {}), ("attr", b), ("meth", "m0", (self.arg(),), {}), ("attr", "__slots__")]
+        if with_call:
+            lines += ["        def __call__(self, x=0):", "            return (x, self.%s, K0)" % b]
+            ops += [("call", (), {}), ("call", (self.arg(),), {})]
+        u, v = self.lit(), self.lit()
+        src = "\n".join(lines) + "\n    return %s(%s, %s)\n" % (cname, u, v)
+        desc = "%s instance of local class %s with __slots__ (no __getstate__) built with (%s, %s)" % ("callable" if with_call else "non-callable", cname, u, v)
+        return src, ops, desc, True
+
     def k_instance(self, with_call):
+        if self.r.random() < 0.15:
+            return self.k_slotted_instance(with_call)
         body, cname, csig, ops, stateful, _ = self._class_src(with_call, allow_ctor_raise=False)
         args, kwargs = self._ctor_call(csig, None, p_invalid=0.0)
         parts = [repr(a) for a in args] + ["%s=%r" % kv for kv in kwargs.items()]
@@ -810,6 +842,20 @@ def echo(arg):
     return arg
 
 
+def load_cp(blob):
+    """Control for the premise 'cloudpickle can serialise the object': the bare object carried by cloudpickle alone."""
+    import cloudpickle
+
+    cloudpickle.loads(blob)
+    return True
+
+
+def echo_cp(blob):
+    import cloudpickle
+
+    return cloudpickle.dumps(cloudpickle.loads(blob))
+
+
 def _strip_self(kwargs):
     return {k: v for k, v in kwargs.items() if k not in ("self", "fn")}
 
@@ -837,6 +883,21 @@ def xproc_child(argv):
             return ("ok", executor().submit(fn, *a, **k).result(timeout=TMO))
         except Exception as e:  # noqa: BLE001
             return ("exc", type(e).__name__, repr(e)[:300])
+
+    def control(s, fn):
+        """Same crossing(s) for the BARE object carried by cloudpickle alone (no wrapper): tells a limit of cloudpickle
+        (outside the property's premise) from a defect of the wrapper."""
+        import cloudpickle
+
+        try:
+            res = remote(fn, cloudpickle.dumps(s.instance()))
+            if res[0] != "ok":
+                return "exc %s %s" % (res[1], res[2])
+            if fn is echo_cp:
+                cloudpickle.loads(res[1])
+            return "ok"
+        except Exception as e:  # noqa: BLE001
+            return "exc %s %s" % (type(e).__name__, repr(e)[:300])
 
     records = []
     skipped = 0
@@ -866,6 +927,8 @@ def xproc_child(argv):
             continue
         res = remote(probe, wrapped_subject(s, kw), rec["ops_src"])
         R["tasks"].append({"task": "arg", "direct": d, "remote": list(res)})
+        if res[0] != "ok":
+            R["tasks"][-1]["control"] = control(s, load_cp)
         # (F) wrapper as the task function itself
         if callable(ref):
             for op in [o for o in ops if o[0] == "call" and not set(o[2]) & {"self", "fn"}][:2]:
@@ -881,7 +944,7 @@ def xproc_child(argv):
                 rr = {"wrapped": isinstance(back, CloudpickledObjectWrapper), "callable": callable(back), "out": apply_ops(back, ops)}
                 R["tasks"].append({"task": "echo", "direct": d, "remote": ["ok", rr]})
             else:
-                R["tasks"].append({"task": "echo", "direct": d, "remote": list(res)})
+                R["tasks"].append({"task": "echo", "direct": d, "remote": list(res), "control": control(s, echo_cp)})
         records.append(R)
     with open(out_path + ".tmp", "w") as f:
         json.dump({"pickler": get_loky_pickler_name(), "records": records, "skipped_ctor_raises": skipped}, f)
